@@ -11,7 +11,9 @@
 (* Families (fam):                                                         *)
 (*   "single"  every pattern of the universe alone                         *)
 (*   "twin"    every pattern with parameters next to itself with other     *)
-(*             parameter names: registration must refuse the second one    *)
+(*             parameter names (once differing in the first byte: x / qx,  *)
+(*             once sharing it: x / x2): registration must refuse the      *)
+(*             second one                                                  *)
 (*   "pair"    every 2-subset of the universe, both orders                 *)
 (*   "triple"  3-subsets of the universe, all 6 orders: every one when     *)
 (*             TripleCount = 0, else TripleCount of them picked by seed    *)
@@ -27,8 +29,8 @@
 (*             combinations UseRawPath x UnescapePathValues, looked up     *)
 (*             with "+", "%2B", "%41", "%2541" in parameter positions      *)
 (* In the set families every second route has its parameter names         *)
-(* suffixed ("/:x/a" next to "/:x2/b"), so routes sharing a parameter node *)
-(* disagree about its name.                                                *)
+(* prefixed ("/:x/a" next to "/:qx/b": the names differ in their first     *)
+(* byte), so routes sharing a parameter node disagree about its name.      *)
 (* Lookup paths of a set: every pattern instantiated with every            *)
 (* combination of parameter values PV (catch-all: AV), plus the one-edit   *)
 (* neighbours (extra slash, missing slash, extra segment) of each; only    *)
@@ -111,27 +113,29 @@ MkCase(fam, raw, routes, orders, lookups) ==
   [fam |-> fam, raw |-> raw, unesc |-> TRUE, esc |-> FALSE, routes |-> routes, orders |-> orders,
    modes |-> [o \in 1 .. Len(orders) |-> ModeSeq[((o + Len(lookups)) % 3) + 1]], lookups |-> lookups]
 
-\* the pattern with every parameter name suffixed
-RECURSIVE Unparse(_, _, _, _, _)
-Unparse(toks, names, d, k, sfx) ==
+\* the pattern with every parameter name prefixed with pre and suffixed with sfx.  Prefix "q": the new name differs from
+\* the old one in its FIRST byte (no name of the universes begins with q) -- a tree that keeps a piece of the name in a
+\* node prefix then sees two different edges where it must see one; suffix "2": the names share their first bytes.
+RECURSIVE Unparse(_, _, _, _, _, _)
+Unparse(toks, names, d, k, pre, sfx) ==
   IF d > Len(toks) THEN ""
-  ELSE IF toks[d] = "PARAM" THEN ":" \o names[k] \o sfx \o Unparse(toks, names, d + 1, k + 1, sfx)
-  ELSE IF toks[d] = "ANY" THEN "*" \o names[k] \o sfx
-  ELSE toks[d] \o Unparse(toks, names, d + 1, k, sfx)
-Rename(p, sfx) == LET q == Parse(p) IN Unparse(q.toks, q.names, 1, 1, sfx)
+  ELSE IF toks[d] = "PARAM" THEN ":" \o pre \o names[k] \o sfx \o Unparse(toks, names, d + 1, k + 1, pre, sfx)
+  ELSE IF toks[d] = "ANY" THEN "*" \o pre \o names[k] \o sfx
+  ELSE toks[d] \o Unparse(toks, names, d + 1, k, pre, sfx)
+Rename(p, pre, sfx) == LET q == Parse(p) IN Unparse(q.toks, q.names, 1, 1, pre, sfx)
 
-\* every second route of a set gets other parameter names than its neighbours ("/:x/a" next to "/:x2/b"): routes that
+\* every second route of a set gets other parameter names than its neighbours ("/:x/a" next to "/:qx/b"): routes that
 \* share a parameter node then disagree about its name, as they may (names live in the route, not in the node)
 GetSetCase(fam, S, orders) ==
   LET ps == SetToSeq(S) IN
-  MkCase(fam, FALSE, [i \in 1 .. Len(ps) |-> RouteRec("GET", IF i % 2 = 0 THEN Rename(ps[i], "2") ELSE ps[i])], orders,
+  MkCase(fam, FALSE, [i \in 1 .. Len(ps) |-> RouteRec("GET", IF i % 2 = 0 THEN Rename(ps[i], "q", "") ELSE ps[i])], orders,
          LookupsOf(S, PV, AV, {"a"}, {"a"}, FALSE))
 
 Singles == {GetSetCase("single", {p}, AllOrders(1)) : p \in U}
 \* same shape, other names: the second registration must be refused whatever the order
-Twins == {MkCase("twin", FALSE, <<RouteRec("GET", p), RouteRec("GET", Rename(p, "2"))>>, AllOrders(2),
+Twins == {MkCase("twin", FALSE, <<RouteRec("GET", p), RouteRec("GET", Rename(p, t[1], t[2]))>>, AllOrders(2),
                  LookupsOf({p}, {"a"}, {"a"}, {"a"}, {"a"}, FALSE))
-          : p \in {p \in U : Len(Parse(p).names) > 0}}
+          : p \in {p \in U : Len(Parse(p).names) > 0}, t \in {<<"q", "">>, <<"", "2">>}}
 Pairs   == {GetSetCase("pair", S, AllOrders(2)) : S \in kSubset(2, U)}
 
 AllTriples == SetToSeq(kSubset(3, U))
